@@ -35,6 +35,10 @@ def oracle(toks, line):
     if c in ("rcast", "ccast"):
         off = toks[-1]
         return line == ("ok null" if off in ("null", "0") else f"ok in0:{off}")     # the designated sandbox address never changes
+    if c == "cbopqd":
+        return line == f"ok seen={int(toks[1])} ret={int(toks[2])} seenf={int(toks[1])} retf={int(toks[2])}"
+    if c == "rcastfn":
+        return line == "ok same=1"
     if c == "opqarg":
         v = int(toks[1])
         r = str(v) if fits(guest("long"), v) else "abort"
@@ -81,6 +85,11 @@ def run(chk):
             ops.append(f"ccast {w} {o}")
     for v in (0, 1, -1, 2147483647, -2147483648, 2147483648, -2147483649, rng.randrange(-10 ** 9, 10 ** 9)):
         ops.append(f"cbopq {v}")
+    for a, r in ((3, 7), (0, 0), (-1, 1), (1000, -1000), (rng.randrange(-10 ** 6, 10 ** 6), rng.randrange(-10 ** 6, 10 ** 6))):
+        ops.append(f"cbopqd {a} {r}")      # |values| < 2^24: exact in float as well
+    for w in ("tainted", "tvol"):
+        for name in ("gl_see", "gl_callcb"):
+            ops.append(f"rcastfn {w} {name}")
         ops.append(f"opqarg {v}")
     for _ in range(20):
         ops.append(f"opqarg {rng.choice([rng.randrange(-2 ** 63, 2 ** 63), rng.randrange(-2 ** 31, 2 ** 31)])}")
